@@ -369,7 +369,7 @@ class Session(object):
         w, ps = self.pick_we()
         a = brack([hx(p) for p in ps])
         k = self.r.choice(["1", "1", "2", "3", "-"])
-        n, o = self.r.choice([("1", "0"), ("0", "1"), ("1", "1"), ("1", "1")])
+        n, o = self.r.choice([("1", "0"), ("0", "1"), ("1", "1"), ("1", "1")] * 5 + [("0", "0")])
         tok = "-"
         self.q("pagelinks %d %s 0 %s %s" % (w, a, n, o))
         for _ in range(12 if full else 1):
